@@ -55,7 +55,7 @@ CLAIMED['C19'] = dict(
     design='5/C19',
     note='Trusted: Lean kernel + Mathlib order/field lemmas; IEEE rounding is outside the rational model (float findings F13c/F13d). deep_distance: modelled (Model/Distance/Deep.lean, op DDIST: the reported number is the model numerator over the model denominator on the ordered universe); '
          'its range is a theorem for nested dictionaries of any depth and for lists of scalars compared position by position, without a type change (C19_deep_distance_nested_dicts, C19_deep_distance_positional_lists: numerator <= denominator + number of type changes), the property is refuted in the model '
-         'where the code refutes it (C19_N_deep_distance_exceeds_one = F13a); the positivity clause is a theorem for nested dictionaries all of whose parts are countable (C19_deep_distance_positive_nested_dicts; F17a-c are exactly the excluded inputs); for two sets / frozensets of scalars the numerator, the denominator and the gap of 2 between them are theorems for any item hash (C19_deep_distance_sets, C19_deep_distance_frozensets, C19_deep_distance_positive_sets, C19_N_set_of_none); the distance is taken on the tree before added / removed pairs are folded (diffUnmerged), as in DeepDiff.__init__; '
+         'where the code refutes it (C19_N_deep_distance_exceeds_one = F13a); the positivity clause is a theorem for nested dictionaries all of whose parts are countable (C19_deep_distance_positive_nested_dicts; F17a-c are exactly the excluded inputs) and for lists of scalars other than None compared position by position (C19_deep_distance_positive_positional_lists); for two sets / frozensets of scalars the numerator, the denominator and the gap of 2 between them are theorems for any item hash (C19_deep_distance_sets, C19_deep_distance_frozensets, C19_deep_distance_positive_sets, C19_N_set_of_none); the distance is taken on the tree before added / removed pairs are folded (diffUnmerged), as in DeepDiff.__init__; '
          'lists in the default (difflib) mode, mixed nestings and ignore_order are observed, not proved. '
          'Known findings F13a, F13b, F17a, F17b, F17c, F25; F24, F49, F53, F54, F60 fixed in /repo.',
     technique='Lean 4 proof (rational arithmetic; induction over nested dictionaries for deep_distance) + differential correspondence; deep_distance outside the proved domain by evaluation')
